@@ -665,6 +665,33 @@ class Impl:
         out["dur"] = [_paths.path_duration(p) for p in paths]
         return out
 
+    # ---- C20
+    def _conf_out(self, res):
+        if res is None:
+            return None
+        out = {}
+        for a, prof in res.items():
+            out[a] = {p: sorted([self.C(n), self.fl(x)] for n, x in sc.items()) for p, sc in prof.items()}
+        return out
+
+    def op_conf(self, s, start, delta, ptype, k, *alphas):
+        from dynetx.algorithms.assortativity import delta_conformity
+        G = self.G(s)
+        PT = ["shortest", "fastest", "foremost", "fastest_shortest", "shortest_fastest"][int(ptype)]
+        al = [int(x) / 100.0 for x in alphas[:int(k)]]
+        return self._conf_out(delta_conformity(G, int(start), int(delta), al, ["a"], path_type=PT))
+
+    def op_sconf(self, s, delta, ptype, k, *alphas):
+        from dynetx.algorithms.assortativity import sliding_delta_conformity
+        G = self.G(s)
+        PT = ["shortest", "fastest", "foremost", "fastest_shortest", "shortest_fastest"][int(ptype)]
+        al = [int(x) / 100.0 for x in alphas[:int(k)]]
+        res = sliding_delta_conformity(G, int(delta), al, ["a"], path_type=PT)
+        out = {}
+        for a, prof in res.items():
+            out[a] = {p: sorted([self.C(n), [[t, self.fl(x)] for t, x in seq]] for n, seq in sc.items()) for p, sc in prof.items()}
+        return out
+
     # ---- C18
     def op_compact(self, k, *rest):
         from dynetx.utils import compact_timeslot
